@@ -497,7 +497,7 @@ func escapeText(s string) string {
 		if i+1 < len(s) && s[i] == '{' && s[i+1] == '{' {
 			end := strings.Index(s[i+2:], "}}")
 			if end != -1 {
-				b.WriteString(s[i : i+2+end+2])
+				writeMustache(&b, s[i:i+2+end+2])
 				i += 2 + end + 2
 				continue
 			}
@@ -515,6 +515,29 @@ func escapeText(s string) string {
 		i++
 	}
 	return b.String()
+}
+
+// writeMustache writes a {{ ... }} expression. Operators stay readable
+// ({{ a < b && c }}), but a '<' that would open a tag and an '&' that would
+// start a character reference are escaped, so that the text parses back to the
+// same expression.
+func writeMustache(b *strings.Builder, m string) {
+	for i := 0; i < len(m); i++ {
+		c := m[i]
+		var next byte
+		if i+1 < len(m) {
+			next = m[i+1]
+		}
+		isAlpha := (next >= 'a' && next <= 'z') || (next >= 'A' && next <= 'Z')
+		switch {
+		case c == '<' && (isAlpha || next == '/' || next == '!' || next == '?'):
+			b.WriteString("&lt;")
+		case c == '&' && (isAlpha || next == '#' || (next >= '0' && next <= '9')):
+			b.WriteString("&amp;")
+		default:
+			b.WriteByte(c)
+		}
+	}
 }
 
 // trimRawContent trims leading and trailing blank lines from raw content
